@@ -145,6 +145,59 @@ fn tovec_scn_x(script: Vec<Emit<i64>>, sync_source: bool, handed_over: u32, q: O
   s
 }
 
+/// to_vec at the end of a pipeline that ends early on a scheduler thread:
+/// `src.observe_on(new_thread).take(2).to_vec()` / `src.subscribe_on(new_thread).take(2).to_vec()`
+fn piped_scn(subscribe_on: bool, source_thread: bool, q: Option<u32>, t: Option<u32>) -> Scn {
+  let name = format!("c18/{} P(n1,n2,n3,C).{}.take(2).to_vec()", if source_thread { "source thread" } else { "synchronous source" }, if subscribe_on { "subscribe_on" } else { "observe_on" });
+  scn(&name, "to_vec", q, t, move || {
+    let out: Arc<Mutex<Option<Result<Vec<i64>, i64>>>> = Arc::new(Mutex::new(None));
+    let out2 = out.clone();
+    let body: Body = Box::new(move || {
+      let src: Observable<'static, i64> = Observable::create(move |s| {
+        let run = move || {
+          for v in [1i64, 2, 3] {
+            if !s.is_subscribed() {
+              return;
+            }
+            s.next(v);
+          }
+          s.complete();
+        };
+        if source_thread {
+          thread::spawn(run);
+        } else {
+          run();
+        }
+      });
+      let nt = schedulers::new_thread_scheduler();
+      let o = if subscribe_on { src.subscribe_on(nt) } else { src.observe_on(nt) };
+      let (r, _, _) = block_on(o.take(2).to_vec(), 0);
+      *out2.lock().unwrap() = Some(match r {
+        Ok(v) => Ok(v.read().unwrap().clone()),
+        Err(e) => Err(err_code(&e)),
+      });
+    });
+    let check: Check = Box::new(move |e: &ExecEnd| {
+      let mut v = base_violations(e, &[]);
+      let o = out.lock().unwrap();
+      match &*o {
+        None => {
+          if v.is_empty() {
+            v.push(viol("future-never-ready", format!("block_on did not return; threads {}", thread_summary(e))));
+          }
+        }
+        Some(r) => {
+          if *r != Ok(vec![1, 2]) {
+            v.push(viol("wrong-result", format!("to_vec yielded {:?}, want Ok([1, 2])", r)));
+          }
+        }
+      }
+      Verdict { outcome: format!("{:?}", *o), violations: v }
+    });
+    (body, check)
+  })
+}
+
 pub fn scenarios() -> Vec<Scn> {
   use Emit::*;
   vec![
@@ -155,6 +208,9 @@ pub fn scenarios() -> Vec<Scn> {
     tovec_scn(vec![E(7)], false, Some(3), Some(6)),
     tovec_scn_x(vec![N(1), C], false, 1, Some(3), Some(5)),
     tovec_scn_x(vec![N(1), E(7)], false, 2, Some(2), Some(4)),
+    piped_scn(false, true, Some(1), Some(2)),
+    piped_scn(false, false, Some(1), Some(2)),
+    piped_scn(true, false, Some(1), Some(2)),
     tovec_scn(vec![N(1), C], true, Some(1), Some(1)),
     tovec_scn(vec![E(7)], true, Some(1), Some(1)),
   ]
